@@ -221,15 +221,15 @@ def unpackN (f : Val → Bytes → Except Err (Val × Bytes)) (d : Val) :
 come before `e`; an equivalent entry already present wins (`insert` does not overwrite).
 For unordered containers `lt` is "keys differ" and a new entry goes to the end (the real
 position is unspecified — the harness canonicalises). -/
-def insertBy (lt : Val → Val → Bool) (e : Val) : List Val → List Val
+def insertBy {α : Type} (lt : α → α → Bool) (e : α) : List α → List α
   | [] => [e]
   | x :: xs => if lt x e then x :: insertBy lt e xs else if lt e x then e :: x :: xs else x :: xs
 
-def insertAll (lt : Val → Val → Bool) (tgt : List Val) (es : List Val) : List Val :=
+def insertAll {α : Type} (lt : α → α → Bool) (tgt : List α) (es : List α) : List α :=
   es.foldl (fun acc e => insertBy lt e acc) tgt
 
 /-- pairwise: every entry precedes all later ones -/
-def sortedBy (lt : Val → Val → Bool) : List Val → Bool
+def sortedBy {α : Type} (lt : α → α → Bool) : List α → Bool
   | [] => true
   | x :: xs => xs.all (lt x) && sortedBy lt xs
 
